@@ -104,7 +104,7 @@ def space(tier, seed):
     for early in (False, True):
         for first in DIRECT_OPS:
             for second in DIRECT_OPS:
-                items.append({"direct": True, "early": early, "prefix": [first, second], "depth": 6 if tier == "quick" else 7})
+                items.append({"direct": True, "early": early, "prefix": [first, second], "depth": 6 if tier == "quick" else 8})
     return items
 
 
